@@ -138,3 +138,25 @@ Proof.
     cbn [spec_step]. rewrite Ha. cbn [fst snd sp_cur sp_set_snaps sp_set_cur]. split; [reflexivity|]. split; [reflexivity|].
     unfold wf_op_b. rewrite Ha. destruct (sp_pend s2); reflexivity.
 Qed.
+
+(** ** the chain-half predicate evaluated on full-ledger traces: what a pass says about a refusal
+    and about an accepted rollback *)
+Lemma full_frame_refused_step h r t t' c t'' prev i :
+  full_frame_g (Rollback h :: t) (ORes r :: t') (c :: t'') prev i = None -> r <> R_ok -> c = prev.
+Proof.
+  cbn [full_frame_g]. intros H Hr. destruct (r =? R_ok) eqn:E; [apply N.eqb_eq in E; contradiction|].
+  destruct (list_eqb N.eqb c prev) eqn:El; [| discriminate].
+  apply (list_eqb_spec N.eqb N.eqb_eq). exact El.
+Qed.
+
+Lemma full_frame_accepted_step h t t' c t'' prev i :
+  full_frame_g (Rollback h :: t) (ORes R_ok :: t') (c :: t'') prev i = None ->
+  exists rest, c = h :: h :: h :: rest.
+Proof.
+  cbn [full_frame_g]. rewrite N.eqb_refl. intro H.
+  destruct (chain_heights_at c h) eqn:E; [| discriminate]. unfold chain_heights_at in E.
+  destruct c as [|a [|b [|n rest]]]; try discriminate.
+  apply andb_true_iff in E. destruct E as [E E3]. apply andb_true_iff in E. destruct E as [E1 E2].
+  apply N.eqb_eq in E1, E2, E3. subst. exists rest. reflexivity.
+Qed.
+
